@@ -269,6 +269,50 @@ Definition round_half_even_div (a b : Z) : Z :=
 Definition meta_ns_nominal (ns : Z) : Z := round_half_even_div (ns * fs_lf) fs_ap.
 
 (* ------------------------------------------------------------------ *)
+(* arguments, probe types, shanks processed                            *)
+(* ------------------------------------------------------------------ *)
+(* spikeglx._get_neuropixel_version_from_meta on imDatPrb_type, as NP2Converter.process dispatches:
+   21 / 1030 -> "NP2.1" (_process_NP21), 24 / 2013 -> "NP2.4" (_process_NP24),
+   anything else -> warning, status -1, nothing written (0) *)
+Definition np_version (prb_type : Z) : Z :=
+  if (prb_type =? 21) || (prb_type =? 1030) then 21
+  else if (prb_type =? 24) || (prb_type =? 2013) then 24 else 0.
+
+(* init_params:  self.nsamples = nsamples or self.sr.ns ;  self.samples_window = nwindow or 2 * self.fs_ap
+   (None and 0 are both falsy: argument 0 stands for None) *)
+Definition nsamples_of (arg nsf : Z) : Z := if arg =? 0 then nsf else arg.
+Definition window_of (arg : Z) : Z := if arg =? 0 then 2 * fs_ap else arg.
+
+(* np.unique(chn_info['shank']): sorted, without repetition *)
+Fixpoint insert_u (x : Z) (l : list Z) : list Z :=
+  match l with
+  | [] => [x]
+  | y :: t => if x <? y then x :: l else if x =? y then l else y :: insert_u x t
+  end.
+Definition uniq_sorted (l : list Z) : list Z := fold_right insert_u [] l.
+
+(* the shanks one run writes files for, in order (None = AssertionError):
+   _prepare_files_NP24:  n_shanks = self.nshank or np.unique(chn_info['shank'])
+   _prepare_files_NP21:  n_shanks = np.unique(...); assert len(n_shanks) == 1   (nshank is ignored)
+                         assert_shanks=False: n_shanks = [0] *)
+Definition shanks_processed (version : Z) (nshank shanks : list Z) (assert_shanks : bool) : option (list Z) :=
+  if version =? 24 then Some (match nshank with [] => uniq_sorted shanks | _ => nshank end)
+  else if assert_shanks then
+         match uniq_sorted shanks with [s] => Some [s] | _ => None end
+       else Some [0].
+
+(* channels of one output file; _prepare_files_NP21(assert_shanks=False): np.arange(self.sr.nc) *)
+Definition file_chns (version : Z) (assert_shanks : bool) (shanks : list Z) (nsaved nsync sh : Z) : list Z :=
+  if (version =? 21) && negb assert_shanks then zrange2 0 nsaved
+  else shank_chns shanks nsaved nsync sh.
+
+(* lf_file with the channel list given *)
+Definition lf_file_chns (version : Z) (m : meta) (chns : list Z) (nrows meta_ns sh : Z) :=
+  let nb := lf_nbytes nrows chns in
+  let m' := write_lf_meta version m chns nb sh in
+  (chns, m', nb, (rd_nc m', rd_fs m', rd_is_lf m', rd_nsync m', rd_open_ns m' nb meta_ns)).
+
+(* ------------------------------------------------------------------ *)
 (* everything observable for one conversion                            *)
 (* ------------------------------------------------------------------ *)
 (* per output file: channels, rewritten meta, bytes, what the Reader sees
